@@ -125,6 +125,50 @@ def h_mixed(sx):
         return {"text": text, "error": repr(ex)}
 
 
+def h_config_history(sx):
+    """Two configurations in one process: the tag-expression protocol chosen by the first one (config file option
+    tag_expression_protocol) must not leak into the second one, which uses the default (auto-detection)."""
+    from behave.tag_expression.builder import TagExpressionProtocol
+    from behave.tag_expression.parser import TagExpressionError
+    from vlib.world import base_config
+    protos = {"v1": TagExpressionProtocol.V1, "v2": TagExpressionProtocol.V2, "auto": TagExpressionProtocol.AUTO_DETECT}
+    first = sx.choice("first_protocol", ["v1", "v2", "auto"])
+    first = first if isinstance(first, str) else first.concretize()
+    second = [("(a or b.c) and not x", ["and", ["or", ["lit", "a"], ["lit", "b.c"]], ["not", ["lit", "x"]]]),
+              (["a,b.c", "-x"], ["and", ["or", ["lit", "a"], ["lit", "b.c"]], ["not", ["lit", "x"]]]),
+              ("not a", ["not", ["lit", "a"]]), ("~@a", ["not", ["lit", "a"]]), ("-a and b.c", None)]
+    k = sx.choice("second_text", list(range(len(second))))
+    k = k if isinstance(k, int) else k.concretize()
+    text, tree = second[k]
+    tags, member = tagset(sx, UNIVERSE)
+    try:
+        cfg1 = base_config(("--no-summary",))
+        cfg1.tag_expression_protocol = protos[first]
+        cfg1.tags = ["a"] if first != "v2" else ["a and zzz"]
+        cfg1.setup_tag_expression()
+        cfg2 = base_config(("--no-summary",))
+        sx.check(cfg2.tag_expression_protocol is TagExpressionProtocol.DEFAULT, "C08.default-protocol-is-auto-detect",
+                 detail={"protocol": str(cfg2.tag_expression_protocol)})
+        cfg2.tags = list(text) if isinstance(text, list) else [text]      # --tags is an append option
+        det = lambda m: {"first_protocol": first, "second": text,
+                         "tags": [t for t in UNIVERSE if (sx.eval(sx.bool("has:" + t), m) if m is not None else sx.bool("has:" + t))]}
+        try:
+            cfg2.setup_tag_expression()
+        except TagExpressionError as e:
+            sx.check(tree is None, "C08.earlier-configuration-does-not-change-dialect", detail=lambda m: dict(det(m), error=str(e)[:120]))
+            return {"first": first, "second": text, "rejected": True}
+        if tree is None:
+            sx.check(False, "C08.mixed-dialects-rejected", detail=lambda m: dict(det(m), accepted_as=repr(cfg2.tag_expression)))
+            return {"first": first, "second": text, "accepted": True}
+        r = bool(cfg2.tag_expression.check(tags))
+        spec = T.formula(tree, member, UNIVERSE)
+        sx.check(spec if r else z3.Not(spec), "C08.earlier-configuration-does-not-change-dialect",
+                 detail=lambda m: dict(det(m), impl=r, parsed_as=type(cfg2.tag_expression).__module__))
+        return {"first": first, "second": text, "result": r}
+    finally:
+        TagExpressionProtocol.use(TagExpressionProtocol.DEFAULT)
+
+
 def jobs(tier, seed):
     from props.c07 import trees_for
     js = []
@@ -143,6 +187,8 @@ def jobs(tier, seed):
                           {"shape": sh, "form": form, "protocol": "auto", "limits": False, "kw_names": True},
                           reach=["C08.v1-meaning(AND of OR, -/~ negate, @ optional)"], min_paths=10,
                           cost=6 ** sum(sh), validate=40, closure=False))
+    js.append(Job("config-history", "props.c08:h_config_history", {},
+                  reach=["C08.earlier-configuration-does-not-change-dialect"], min_paths=10, cost=50, validate=40, closure=False))
     trees = trees_for(tier, seed)
     n2 = 30 if tier == "quick" else 120
     step = max(1, len(trees) // n2)
